@@ -218,6 +218,7 @@ class Session:
         self.cands = [mini.new_asset(self.lcf, e[0], e[1], **e[2]) for e in U["cands"]]
         self.atts = [AttackerAttachment(name=n) for n in U["attackers"]]
         for a in self.atts: a.entry_points = []
+        self.id_events = []                     # observed add_attacker calls that ASK for an id clash: (cause, attacker id)
         self.links = []                         # every association object created, handle = position
         self.by_shape = {}                      # k -> [handles]
         self.all_fields = sorted({f for fs in U["fields"].values() for f in fs})
@@ -292,8 +293,14 @@ class Session:
             elif kind == "remove_assoc":       m.remove_association(self.links[handle])
             elif kind == "remove_from_assoc":  m.remove_asset_from_association(self.cands[op[1]], self.links[handle])
             elif kind == "add_attacker":
-                if op[2] is None: m.add_attacker(self.atts[op[1]])
-                else: m.add_attacker(self.atts[op[1]], attacker_id=op[2])
+                t = self.atts[op[1]]
+                twice = any(x is t for x in m.attackers)
+                if not twice and op[2] is not None and any(x.id == op[2] for x in m.attackers):
+                    self.id_events.append(("explicit-id-already-in-use", op[2]))
+                if op[2] is None: m.add_attacker(t)
+                else: m.add_attacker(t, attacker_id=op[2])
+                if twice:
+                    self.id_events.append(("same-attachment-added-twice", t.id))
             elif kind == "remove_attacker":    m.remove_attacker(self.atts[op[1]])
             elif kind == "add_ep":             self.atts[op[1]].add_entry_point(self.cands[op[2]], op[3])
             elif kind == "remove_ep":          self.atts[op[1]].remove_entry_point(self.cands[op[2]], op[3])
